@@ -2,16 +2,22 @@
    Statements restated in full, closed with exact, assumptions printed. *)
 Require Import LV.Base LV.VV LV.VVFacts LV.Path LV.PathSpec LV.Prog LV.Objects LV.Exec LV.Atomic LV.Ops LV.Check LV.Ref LV.Outcome LV.Witness LV.SyncFacts LV.CheckFacts.
 
-(* D5: unparking a thread blocked in join trips loom's own assertion although R says the program just finishes *)
-Theorem C05_refuted_D5_unpark_of_joiner_panics :
-  fin_of p_D5 = RunPanic PanicNotified /\
+(* D5 (repaired): unparking a thread blocked in join no longer wakes it; the program finishes as R says (computed witness) *)
+Theorem C05_D5_repaired_unpark_of_joiner :
+  fin_of p_D5 = RunOk /\
        ref_can_deadlock (ref_outcomes false FUEL p_D5) = false /\
        existsb (fun o : routcome => match o with
                                     | OPanic => true
                                     | _ => false
                                     end) (ref_outcomes false FUEL p_D5) = false.
-Proof. exact D5_internal_panic. Qed.
-Print Assumptions C05_refuted_D5_unpark_of_joiner_panics.
+Proof. exact D5_repaired. Qed.
+Print Assumptions C05_D5_repaired_unpark_of_joiner.
+
+(* D11 (repaired): a park token delivered before the thread blocks on a mutex is still there when it parks *)
+Theorem C05_D11_repaired_token_survives_blocking :
+  fin_of p_D11 = RunOk /\ ref_can_deadlock (ref_outcomes false FUEL p_D11) = false.
+Proof. exact D11_repaired. Qed.
+Print Assumptions C05_D11_repaired_token_survives_blocking.
 
 (* D14: a deadlock that needs two unparks to coalesce before the first park is never reached *)
 Theorem C05_refuted_D14_deadlock_missed :
